@@ -254,6 +254,16 @@ class Oracle:
 
     # -- every waveform object that comes into existence goes through here
     def waveform(self, w: Waveform, origin: str):
+        try:
+            return self._waveform(w, origin)
+        except Exception as e:  # noqa: BLE001
+            self.bad(
+                "accessor-raises:" + type(e).__name__,
+                f"{origin}: reading samples/integral/first/last of {type(w).__name__} raised {type(e).__name__}: {e}",
+            )
+            return False
+
+    def _waveform(self, w: Waveform, origin: str):
         s = arr(w)
         d = w.duration
         if not (isinstance(d, (int, np.integer)) and d > 0):
@@ -303,7 +313,11 @@ class Oracle:
             if area > 0 and np.any(s < 0) or area < 0 and np.any(s > 0):
                 self.bad("window:sign:" + type(w).__name__, f"{origin}: samples of the wrong sign")
         elif isinstance(w, InterpolatedWaveform):
-            pts = w.data_points
+            # documented points: value v_i sits at sample round(t_i * (duration - 1))
+            xs = ref_data_x(d, list(w._values), interp_times_param(w))
+            if [int(x) for x in w.data_points[:, 0]] != xs or [float(v) for v in w.data_points[:, 1]] != [float(v) for v in w._values]:
+                self.bad("interpolated:data-points-attr", f"{origin}: data_points {w.data_points.tolist()} are not (round(t*(d-1)), value)")
+            pts = list(zip(xs, [float(v) for v in w._values]))
             tol = 1e-9 + 1e-12 * scale
             for x, v in pts:
                 xi = int(x)
@@ -404,8 +418,12 @@ def run_wf_case(case, env: Env, orc: Oracle):
             elif k == "eq":
                 o = build(op[1])
                 env.add_obj(o)
-                got = bool(w == o)
                 so = arr(o)
+                try:
+                    got = bool(w == o)
+                except Exception as e:  # noqa: BLE001
+                    orc.bad("equality:raises:" + type(e).__name__, f"== between durations {d} and {o.duration} raised {type(e).__name__}: {e}")
+                    raise
                 exp = o.duration == d and all(py_isclose(float(a), float(b)) for a, b in zip(s, so))
                 if got != exp:
                     orc.bad("equality:closeness", f"== says {got}, sample-wise closeness says {exp}")
@@ -656,6 +674,12 @@ def run_case(case):
         else:
             raise ValueError("unknown case kind " + str(kind))
         validate_env(env, orc)
+    except (AssertionError, KeyError):
+        raise
+    except Exception as e:  # noqa: BLE001
+        # a public accessor of an already-built object raised: never legitimate
+        orc.bad("unexpected-exception:" + type(e).__name__, f"{type(e).__name__}: {e}")
+        out, obj = [8], None
     finally:
         unquiet(h)
     run = dict(out=out, env=env, built=obj is not None)
